@@ -365,15 +365,48 @@ pub fn check_write_all(c: &WriteCase) -> CaseResult {
     Ok(rep)
 }
 
+/// Argument-free format strings (the text a `write!(w, "...")` without arguments passes): the list
+/// and the call sites are generated together because `format_args!` needs the literal itself.
+macro_rules! literal_formats {
+    ($($lit:literal),* $(,)?) => {
+        pub const LITERALS: &[&str] = &[$($lit),*];
+        fn write_literal<W: Write>(w: &mut W, k: usize) -> tiny_std::Result<()> {
+            let mut i = 0usize;
+            $(
+                if k == i {
+                    return Write::write_fmt(w, format_args!($lit));
+                }
+                i += 1;
+            )*
+            let _ = i;
+            Ok(())
+        }
+    };
+}
+literal_formats!(
+    "",
+    "x",
+    "a pla",
+    "0123456789abcdef0123456789abcde",
+    "0123456789abcdef0123456789abcdef",
+    "0123456789abcdef0123456789abcdef0",
+    "gr\u{fc}\u{df}e \u{2192} \u{1d11e} tab\tnewline\nquote\" end",
+    "Lorem ipsum dolor sit amet, consectetur adipiscing elit, sed do eiusmod tempor incididunt ut labore et dolore magna aliqua. Ut enim ad minim veniam, quis nostrud exercitation ullamco laboris nisi ut aliquip ex ea commodo consequat. Duis aute irure dolor in reprehenderit in voluptate velit esse cillum dolore eu fugiat nulla pariatur.",
+);
+pub const N_LITERALS: u8 = 8;
+
 pub fn check_write_fmt(c: &FmtCase) -> CaseResult {
     let op = "write_fmt";
     let mut rep = CaseReport::new();
     let p = &c.pieces;
-    let expected: String = if c.template { print::template_string(p) } else { format!("{}", Pieces(p)) };
+    let lit = (c.literal as usize).min(LITERALS.len());
+    let expected: String = if lit > 0 { LITERALS[lit - 1].to_string() } else if c.template { print::template_string(p) } else { format!("{}", Pieces(p)) };
     let data = expected.as_bytes();
     let mut w = ScriptedWriter::new(&c.script, data.len());
     let res = no_panic(op, || {
-        if c.template {
+        if lit > 0 {
+            write_literal(&mut w, lit - 1)
+        } else if c.template {
             let (a, b, x) = print::template_args(p);
             Write::write_fmt(&mut w, format_args!("[{}] {:>6}={:#06x}|{}\n", a, b, x, Pieces(p)))
         } else {
@@ -382,7 +415,8 @@ pub fn check_write_fmt(c: &FmtCase) -> CaseResult {
     });
     let res = guard(op, w.abused, res)?;
     judge_write(op, res, &w, data, &mut rep)?;
-    rep.class_if(c.template, "template");
+    rep.class_if(c.template && lit == 0, "template");
+    rep.class_if(lit > 0, "argument-free-format-string");
     rep.class_if(w.calls >= 3, "several-write-str-calls");
     Ok(rep)
 }
